@@ -523,7 +523,8 @@ def run_episodes(chk, cases, models):
                                        recorded_messages={k: dict(sent=m["sent"][:6], recv=m["recv"][:6]) for k, m in r["conns"].items()}))
         # recorded infos are the infos of the configuration
         for n, inf in r["rec_info"].items():
-            want = (model[VARIANTS.index(v)] if v else model[0])["before"][n]["info"]
+            ref = VARIANTS.index(v) if v else min(range(8), key=lambda i: (ndiffs(r["obs"], model[i]["before"]), sum(VARIANTS[i])))
+            want = model[ref]["before"][n]["info"]
             if inf != want:
                 d = first_diff(inf, want, "record.info")
                 chk.violation(f"episode-differs:{field_class('x/' + d[0])[2:]}", f"recorded info of node {n} differs at {d[0]}: "
